@@ -35,6 +35,21 @@ def run(ctx):
         if body is None:
             continue
         slots = wire.match_schedule(ctx, 'R-C19-1', body, role, wire.SCHEDULE + (wire.VERIFIER_TAIL if role == 'verifier' else []))
+        if slots:
+            # label -> datum: each labelled message carries the datum the released layout puts there (N = bit length, T = extension
+            # degree, M = number of commitments, ..)
+            from . import C04
+            cls = C04.event_classes(ctx, body, role)
+            for slot, evs_ in sorted(slots.items()):
+                if slot in ('domsep', 'r1', 's1', 'd1') or slot is None or slot.startswith('_'):
+                    continue
+                for e_ in evs_:
+                    c_, det_ = cls.get(id(e_), (None, ''))
+                    want = {slot} if slot != 'promise' else {'promise', 'promise-none'}
+                    rep.check(c_ in want, 'R-C19-1', 'R-C19-1/%s/datum/%s' % (role, (e_.label() or b'?').decode('latin1')),
+                              'message %r carries the %s' % (e_.label(), slot),
+                              'message %r carries %s, the released layout puts the %s there' % (e_.label(), ('the ' + c_) if c_ else ('an unrecognised datum (%s)' % det_[:80]), slot),
+                              ctx.where(e_.body, e_.bb))
         if slots and slots.get('domsep'):
             d = slots['domsep'][0].data()
             rep.check(d.tag == 'const' and d[1] == wire.DOMSEP, 'R-C19-1', 'R-C19-1/%s/domain-separator' % role, 'domain separator message is %r' % wire.DOMSEP,
